@@ -35,13 +35,16 @@ func gCorpus(c *Ctx, mode int) []*corpus.Spec {
 			want[s.Name] = true
 		}
 	default:
-		for _, n := range []string{"expr_std", "expr_nonassoc", "etf", "lvalue", "sep_ba", "nqlalr", "list_null", "opt_mid", "prec_mixed", "nullseq_OM", "etf_basefirst", "dangling_else", "len4", "len10", "stmts12", "redecl", "rlist", "split_groups", "nullable_chain3", "big200", "rlist_basefirst", "alias_follow", "mod_op", "same_actions"} {
+		for _, n := range []string{"expr_std", "expr_nonassoc", "etf", "lvalue", "sep_ba", "nqlalr", "list_null", "opt_mid", "prec_mixed", "nullseq_OM", "etf_basefirst", "dangling_else", "len4", "len10", "stmts12", "redecl", "rlist", "split_groups", "nullable_chain3", "big200", "rlist_basefirst", "alias_follow", "mod_op", "same_actions", "copy_actions"} {
 			want[n] = true
 		}
 	}
 	for _, s := range all {
 		if s.HasTag("go-only-actions") {
 			continue // action bodies in Go syntax (C10 reads them); no TypeScript rendering
+		}
+		if s.HasTag("no-log") && mode != 0 {
+			continue // some reductions do not log themselves: only for variant-against-variant harnesses
 		}
 		if s.SameActions && mode == 0 {
 			continue // needs the rule-numbering guard of gParse
